@@ -165,10 +165,16 @@ class MacroProcessor:
         """
         max_iterations = 100  # Prevent infinite loops
         iteration = 0
+        # A macro that (directly or through others) mentions itself more than once doubles
+        # the text on every pass: 100 passes would need 2**100 characters. No sane project
+        # grows a thousandfold by macro expansion, so stop there with a parse error.
+        max_size = max(1_000_000, 1000 * len(content))
 
         while "${" in content and iteration < max_iterations:
             iteration += 1
             content = self._expand_once(content)
+            if len(content) > max_size:
+                raise ValueError("Macro expansion does not terminate (recursive macro definition?)")
 
         return content
 
